@@ -47,31 +47,36 @@ impl InheritanceIndex {
 	}
 
 	fn get_ancestors(&self, class: &ObjClassNameSlice) -> Vec<&ObjClassNameSlice> {
-		let mut ancestors = Vec::new();
+		// every class is listed, and its parents are looked at, only once: a class file can name any class as its
+		// super class, so the hierarchy may contain cycles, and a class reached along several paths needs no second visit
+		let mut ancestors: IndexSet<&ObjClassNameSlice> = IndexSet::new();
 		let mut queue = vec![class];
 		while let Some(ancestor) = queue.pop() {
 			if let Some(parents) = self.parents.get(ancestor) {
 				for parent in parents {
-					queue.push(parent);
-					ancestors.push(parent.as_slice());
+					if ancestors.insert(parent.as_slice()) {
+						queue.push(parent);
+					}
 				}
 			}
 		}
-		ancestors
+		ancestors.into_iter().collect()
 	}
 
 	fn get_descendants(&self, class: &ObjClassNameSlice) -> Vec<&ObjClassNameSlice> {
-		let mut descendants = Vec::new();
+		// see get_ancestors
+		let mut descendants: IndexSet<&ObjClassNameSlice> = IndexSet::new();
 		let mut queue = vec![class];
 		while let Some(descendant) = queue.pop() {
 			if let Some(children) = self.children.get(descendant) {
 				for child in children {
-					queue.push(child);
-					descendants.push(child.as_slice());
+					if descendants.insert(child.as_slice()) {
+						queue.push(child);
+					}
 				}
 			}
 		}
-		descendants
+		descendants.into_iter().collect()
 	}
 }
 
